@@ -1325,3 +1325,95 @@ var chkCount = harness.Define("accept-count-without-close-callback",
 	}, runCount)
 
 func TestAcceptCountWithoutCloseCallback(t *testing.T) { chkCount.Rapid(t, harness.Pick(8, 150)) }
+
+// ---------------------------------------------------------------------------
+// shutdown while the serve call is still starting up: the serve callback has announced the listener (from then on Shutdown may be
+// called) but is slow to return, so the serve call has not reached its accept loop when the graceful shutdown runs and returns nil.
+// The serve call then returns the server-closed error as after any other successful shutdown, and the port is closed.
+
+type startCase struct {
+	// ServeDelayUs: the serve callback returns this long after it was called
+	ServeDelayUs int `json:"serve_delay_us"`
+	// ShutdownAfterUs: Shutdown is called this long after the serve callback was entered (before or after it returns)
+	ShutdownAfterUs int `json:"shutdown_after_us"`
+	// Callbacks: cbServe is always set; the others as drawn
+	Callbacks int  `json:"callbacks"`
+	RealTCP   bool `json:"real_tcp"`
+}
+
+func runStart(c startCase) harness.Result {
+	var l net.Listener
+	var dial func() (net.Conn, error)
+	if c.RealTCP {
+		tl, err := net.Listen("tcp", "127.0.0.1:0")
+		if err != nil {
+			return harness.Result{Labels: []string{"harness:no-loopback"}}
+		}
+		l = tl
+		dial = func() (net.Conn, error) { return net.DialTimeout("tcp", tl.Addr().String(), time.Second) }
+	} else {
+		pl := xport.NewPipeListener()
+		l, dial = pl, pl.Dial
+	}
+	defer l.Close()
+	s := &server.Server{ReadTimeout: 10 * time.Millisecond, WriteTimeout: 2 * time.Second}
+	if c.Callbacks&cbError != 0 {
+		s.OnErrorFunc = func(error) {}
+	}
+	if c.Callbacks&cbAccept != 0 {
+		s.OnAcceptConnFunc = func(context.Context, net.Addr, uint64) error { return nil }
+	}
+	if c.Callbacks&cbClose != 0 {
+		s.OnCloseConnFunc = func(context.Context, net.Addr, bool) {}
+	}
+	entered := make(chan struct{})
+	s.OnServeFunc = func(net.Addr) {
+		close(entered)
+		time.Sleep(time.Duration(c.ServeDelayUs) * time.Microsecond)
+	}
+	res := make(chan error, 1)
+	go func() { res <- s.Serve(context.Background(), l, &srv.Handler{Dev: device.New(1)}) }()
+	select {
+	case <-entered:
+	case <-time.After(10 * time.Second):
+		return harness.Fail("serve callback not called within 10 s")
+	}
+	time.Sleep(time.Duration(c.ShutdownAfterUs) * time.Microsecond)
+	sctx, scancel := context.WithTimeout(context.Background(), 10*time.Second)
+	defer scancel()
+	labels := []string{fmt.Sprintf("callbacks:%d", c.Callbacks), "shutdown-during-startup"}
+	if c.ShutdownAfterUs < c.ServeDelayUs {
+		labels = append(labels, "shutdown-before-accept-loop")
+	}
+	if err := s.Shutdown(sctx); err != nil {
+		// nothing is promised after a shutdown that did not succeed
+		select {
+		case <-res:
+		case <-time.After(10 * time.Second):
+		}
+		return harness.Result{Labels: append(labels, "shutdown-failed")}
+	}
+	select {
+	case err := <-res:
+		if !errors.Is(err, server.ErrServerClosed) {
+			return harness.Fail("graceful shutdown %d us after the serve callback was entered (the callback takes %d us) returned nil, but the serve call returned %v instead of the server-closed error", c.ShutdownAfterUs, c.ServeDelayUs, err)
+		}
+	case <-time.After(10 * time.Second):
+		return harness.Fail("graceful shutdown %d us after the serve callback was entered (the callback takes %d us) returned nil, but the serve call did not return within 10 s", c.ShutdownAfterUs, c.ServeDelayUs)
+	}
+	if conn, err := dial(); err == nil {
+		_ = conn.Close()
+		return harness.Fail("the port still accepts connections after the graceful shutdown and the serve call have returned")
+	}
+	return harness.Result{NonTrivial: c.ShutdownAfterUs < c.ServeDelayUs, Labels: labels}
+}
+
+var chkStart = harness.Define("shutdown-during-startup",
+	func(t *rapid.T) startCase {
+		return startCase{ServeDelayUs: rapid.SampledFrom([]int{0, 200, 2000, 10000}).Draw(t, "serve_delay_us"),
+			ShutdownAfterUs: rapid.SampledFrom([]int{0, 50, 500, 3000, 12000}).Draw(t, "shutdown_after_us"),
+			Callbacks:       cbServe | rapid.SampledFrom([]int{0, cbAccept, cbClose, cbError, cbAccept | cbClose | cbError}).Draw(t, "callbacks"),
+			RealTCP:         rapid.Bool().Draw(t, "real_tcp")}
+	}, runStart)
+
+func TestShutdownDuringStartup(t *testing.T) { chkStart.Rapid(t, harness.Pick(40, 1500)) }
